@@ -1027,13 +1027,15 @@ def mon_c06(ix: Index):  # noqa: C901, PLR0912
             st = oc["value"].get("Status") if isinstance(oc["value"], dict) else None
             if st in ("SUCCEEDED", "PENDING"):
                 out.append(V("C06", "C06/%s-after-checkpoint-failure/%s" % (st.lower(), ctx), "invocation reported %s although API call #%s failed" % (st, fail["n"]), end["i"]))
+            elif fail.get("op") == "get_state":
+                pass  # a failed page fetch of a checkpoint response: only fail-stop is judged, not the classification
             elif st == "FAILED":
                 et = (oc["value"].get("Error") or {}).get("ErrorType")
                 if want_raise:
                     out.append(V("C06", "C06/failed-instead-of-raise-for-retriable-error", "returned FAILED(%s) for %s" % (et, fail["fault"]["err"]), end["i"]))
                 elif et != "CheckpointError":
                     out.append(V("C06", "C06/failed-with-wrong-error-type/%s" % et, "FAILED with ErrorType %s after checkpoint failure" % et, end["i"]))
-        else:
+        elif fail.get("op") != "get_state":
             if not want_raise:
                 out.append(V("C06", "C06/raised-instead-of-failed-for-non-retriable-error/%s" % oc["cls"], "raised %s for %s" % (oc["cls"], fail["fault"]["err"]), end["i"]))
             elif oc["cls"] != "CheckpointError":
